@@ -27,6 +27,10 @@ CLAIMED = {
    text="Part (a) of the property - page contents, exactly-once completion, queued requests - decided by seeded deterministic simulation of 2-4 real PageMigrationControllers (1-deep ports) with adversarial memories and control agents over a fault-injecting fabric; oracle: at the completion message and at quiescence the destination page equals the source page byte for byte, no other byte of any memory changed, one completion per request in order, liveness under back-pressure. One genuine defect found and repaired (fix: commit). Part (b) (driver handshake and page-table re-homing) is added by the driver harness when built. Exploration, not proof.",
    note="Trusted: akita ports as executed, the harness's stubs and oracle; links reliable and FIFO per pair; source pages are not written during a run.",
    ref="6 (C19), 12"),
+ "C20": dict(
+   text="Seeded simulation of the real nvidia driver/GPU/SM/sub-core components, built by the repo's public builders on the seeded engine (same-time event order permuted) over drawn platform shapes (1-6 devices, 1-8 SMs, 1-4 sub-cores, and the A100 shape), on generated ragged traces (incl. empty warps, all address-compression forms) that are written to disk and read back by the real trace reader / benchmark builder; oracle: conservation (warps, instructions), every unit idle and in its parent's free list and no kernel unreported when the engine runs dry, and field-by-field equality of the parsed and the serialised trace. Two genuine defects found and repaired (fix: commits). The schedule space is tie order only (all links are directconnections created inside the nvidia builders); the trace round trip is input generation. Exploration, not proof.",
+   note="Trusted: akita engine contract (same-time events unordered), reflection reads of unexported counters, the trace generator; the opcode is not compared (the reader deliberately does not parse it).",
+   ref="6 (C20), 12"),
 }
 
 NOT_APPLICABLE = [
@@ -46,7 +50,6 @@ PENDING = {
  "C11": "check not built yet (planned: copy sequences against a shadow byte array, DESIGN 6 C11)",
  "C12": "check not built yet (planned: driver threads under the controlled goroutine scheduler, DESIGN 6 C12)",
  "C14": "check not built yet (planned: CU in a box, DESIGN 6 C14)",
- "C20": "check not built yet (planned: nvidia trace-driven platform on the seeded engine, DESIGN 6 C20)",
 }
 
 def hook_commits():
